@@ -419,6 +419,15 @@ package zygo
 //@ func (*PrintState).AddIndent
 //@ C01 ensures a-state-to-print-with: r0 != nil
 //@ cycleguard C01 SexpString | (*PrintState).GetSeen | (*PrintState).SetSeen | (*SexpPair).SexpString, (*SexpArraySelector).SexpString, (*SexpHashSelector).SexpString, (*SexpField).SexpString, (*SexpFunction).SexpString, (*SexpLazyArg).SexpString, (*SexpPointer).SexpString, (*SexpError).SexpString, (*RecordDefn).SexpString, (*SexpInterfaceDecl).SexpString, (*SexpClosureEnv).SexpString
+// a tail self-call jumps to the prologue, which pops one operand per parameter: the call site's
+// argument count must be the function's (a call goes through CallFunction, which checks; the jump
+// does not), otherwise the prologue takes operands that belong to the caller
+//@ func (*Zlisp).prepareLazyCallArgs
+//@ C01,C04 pure
+//@ C01,C04 ensures r0 == nil
+//@ func (PrepareCallInstr).execute
+//@ ghost fo := ret0 @after call LexicalLookupSymbol[0]
+//@ C01,C04 ensures arity-of-a-tail-call-is-checked: r0 == nil && typeis(fo, *SexpFunction) && old(!fo.(*SexpFunction).user && !fo.(*SexpFunction).varargs) ==> c.nargs == old(fo.(*SexpFunction).nargs)
 // mdef: every target slot is filled with a symbol before the value is compiled; the bind
 // instruction hands each one to BindSymbol, which dereferences it
 //@ func (*Generator).GenerateMultiDef
